@@ -35,7 +35,7 @@ TRUTH0 = dict(exists=False, nodeOn=False, op=0, actual=0, visible=0, count=0, co
               inN=0, inD=1, outN=0, outD=1, nmIn=0, nmInPrev=0, nmOut=0, nmOutPrev=0, local=False, remote=0,
               rule=False, action=0, sIp=0, sWc=0, sPort=0, dIp=0, dWc=0, dPort=0, proto=0)
 EVENT0 = dict(ev="Leaf", kind="", cfg=CFG0, truth=TRUTH0, obs={}, size={}, contains=True, nested=True, hasFlat=False,
-              flat=False, bad=0, od="", ad="", where="", exc="")
+              flat=False, bad=0, od="", ad="", where="", exc="", inObs=False)
 
 NOT_PINNED = [
     "link / NIC-traffic band at an exact ninth of the capacity (k or k+1 admitted) and above 100 % (any band)",
@@ -89,9 +89,28 @@ def episode_event(od: str, ad: str) -> Dict:
     return e
 
 
+def raise_origin(exc: BaseException) -> str:
+    """Where repository code raised: "observe" (inside game/agent/observations), "flatten" (gymnasium flattening
+    of the observation in PrimaiteGymEnv._get_obs) or "" (anywhere else: simulation, agents, rewards)."""
+    import traceback
+
+    frames = traceback.extract_tb(exc.__traceback__)
+    if any("/game/agent/observations/" in f.filename for f in frames):
+        return "observe"
+    if any(f.name == "_get_obs" or "/gymnasium/spaces/" in f.filename for f in frames):
+        return "flatten"
+    return ""
+
+
 def raised_event(where: str, exc: BaseException) -> Dict:
+    """`where` = observe_<kind> at component level; at environment level the origin if it is the observation
+    code or the flattening, else the env call that raised (step / reset / construct)."""
     e = dict(EVENT0)
-    e.update(ev="Raised", where=where, exc=f"{type(exc).__name__}: {str(exc)[:160]}")
+    origin = raise_origin(exc)
+    if not where.startswith("observe_") and origin:
+        where = origin
+    e.update(ev="Raised", where=where, exc=f"{type(exc).__name__}: {str(exc)[:160]}",
+             inObs=where.startswith("observe"))
     return e
 
 
@@ -458,7 +477,14 @@ class ObsWalker:
         if inst is None:
             truth = truth_rec(exists=False, nodeOn=on)
         else:
-            truth = truth_rec(exists=True, nodeOn=on, op=inst.operating_state.value, actual=inst.health_state_actual.value,
+            op = inst.operating_state.value
+            if kind == "service" and hasattr(inst, "_active") and op == 1 and not inst._active:
+                # FTP services (FTPServiceABC._active docstring: "Flag that is True on timesteps where service transmits
+                # data and False when idle. Used for describe_state"; "the service is shown as running only if actively
+                # transmitting data this timestep"): an idle running FTP client / server reports STOPPED
+                op = 2
+                self.note("idle running FTP service read as STOPPED (documented in FTPServiceABC)")
+            truth = truth_rec(exists=True, nodeOn=on, op=op, actual=inst.health_state_actual.value,
                               visible=inst.health_state_visible.value,
                               count=_int(inst.num_executions) if kind == "application" else 0)
         names = {"operating_status": ("operating_status",), "health_status": ("health_status",)}
@@ -806,6 +832,8 @@ class ComponentBench:
         out: List[Tuple[str, Dict]] = []
         fn = getattr(self, "_k_" + kind)
         for label, thunk in fn(c, t):
+            if self.skip(label, t):
+                continue
             try:
                 obs, space, names, extra_o, extra_z = thunk()
             except Exception as exc:  # noqa - repository code raised: an event, not a crash
@@ -816,6 +844,13 @@ class ComponentBench:
             z.update(extra_z)
             out.append((label, leaf_event(kind, c, t, o, z, ok)))
         return out
+
+    def skip(self, label: str, t: Dict) -> bool:
+        """quick tier: a component that is present on a node that is ON goes through its own class every time and
+        through the parent observation every third time (thorough: both, always)."""
+        if self.thorough or not label.startswith("via-"):
+            return False
+        return bool(t["exists"] and t["nodeOn"]) and self.n % 3 != 0
 
     @staticmethod
     def _thr(key, c):
@@ -1159,6 +1194,8 @@ def adversarial_actions() -> List[Tuple[str, Dict]]:
     for host, app in (("client_1", "web-browser"), ("client_1", "data-manipulation-bot"), ("client_2", "database-client"),
                       ("client_2", "web-browser")):
         for verb in ("execute", "scan", "close", "fix", "remove", "install"):
+            if app == "web-browser" and verb == "install":
+                continue  # a freshly installed browser has no target_url; see the variant of its own below
             a.append((f"node-application-{verb}", dict(node_name=host, application_name=app)))
     for fname in ("database.db", "extra.txt"):
         for verb in ("create", "scan", "delete", "restore", "corrupt", "access", "repair"):
@@ -1223,7 +1260,7 @@ def rich_observation(cfg: Dict, scan: Tuple[bool, bool, bool] = (True, True, Tru
              include_users=users, file_system_requires_scan=scan[0], services_requires_scan=scan[1],
              applications_requires_scan=scan[2])
     if traffic == "rich":
-        o["monitored_traffic"] = {"icmp": ["NONE"], "tcp": ["HTTP", "POSTGRES_SERVER", "DNS"], "udp": ["DNS", "NTP"]}
+        o["monitored_traffic"] = {"icmp": ["NONE"], "tcp": ["HTTP", "POSTGRES_SERVER"], "udp": ["DNS"]}
     elif traffic is None:
         o.pop("monitored_traffic", None)
 
@@ -1259,7 +1296,7 @@ def variants(tier: str) -> List[Dict[str, Any]]:
                 c["game"]["thresholds"] = {"nmne": {"low": 0, "medium": 1, "high": 2}, "file_access": {"low": 0, "medium": 1, "high": 2},
                                            "app_executions": {"low": 0, "medium": 1, "high": 3}}
             add(f"data_manipulation(rich obs, requires_scan fs/svc/app={sc}, flatten={flat}, adversarial+flood6)", c,
-                2 if quick else 3, 60 if quick else 150, ex)
+                2, 50 if quick else 120, ex)
     # many agents in one tick: counts past the top threshold
     c = dm()
     rich_observation(c, scan=(False, False, False))
@@ -1289,6 +1326,12 @@ def variants(tier: str) -> List[Dict[str, Any]]:
         c["simulation"]["network"]["nmne_config"]["capture_nmne"] = False
         _proxy(c)["agent_settings"]["flatten_obs"] = flat
         add(f"data_manipulation(include_nmne true, capture_nmne false, flatten={flat})", c, 1, 6)
+    c = dm()
+    rich_observation(c)
+    _proxy(c)["agent_settings"]["flatten_obs"] = False
+    ex = _add_actions(c, [(f"node-application-{verb}", dict(node_name="client_2", application_name="web-browser"))
+                          for verb in ("remove", "install", "execute", "execute")])
+    add("data_manipulation(rich obs, web-browser removed, installed again and executed)", c, 1, 30, ex, p_extra=0.6)
     add("uc7_config", scenarios.shipped("uc7_config.yaml"), 2, 30 if quick else 128)
     add("scenario_with_placeholders(episode schedule)", str(scenarios.PKG / "scenario_with_placeholders"), 5, 20 if quick else 60,
         constant=False, note="episode-scheduled directory: not a constant scenario; digests logged, constancy not demanded")
@@ -1296,6 +1339,9 @@ def variants(tier: str) -> List[Dict[str, Any]]:
         add("uc7_config_tap003", scenarios.shipped("uc7_config_tap003.yaml"), 1, 128)
         add("uc7_multiple_attack_variants(episode schedule)", str(scenarios.PKG / "uc7_multiple_attack_variants"), 4, 60, constant=False)
     return V
+
+
+_distinct: Dict[str, set] = {}
 
 
 def run_variant(prop: str, v: Dict[str, Any], seed: int, stats: Dict[str, Any]) -> List[Dict[str, Any]]:
@@ -1308,12 +1354,16 @@ def run_variant(prop: str, v: Dict[str, Any], seed: int, stats: Dict[str, Any]) 
     rng = random.Random(seed)
     label = v["label"]
     traces: List[Dict[str, Any]] = []
-    stim = {"scenario": label, "seed": seed, "actions": []}
+    # one shared stimulus record per variant (every trace of the variant points at it): the driver's seed, the reset
+    # seeds and the blue actions in order ("reset" marks an env.reset); meta.episode / meta.step say how far to replay
+    stim = {"scenario": label, "driver_seed": seed, "reset_seeds": [], "actions": [],
+            "how": "PrimaiteGymEnv(variant of rec_obs.variants(tier) with this label); for each episode env.reset(seed=reset_seed) "
+                   "then env.step(action) for the listed actions"}
 
     def raised(where, exc, ep, st):
         stats["raised"] = stats.get("raised", 0) + 1
         traces.append(trace(prop, [raised_event(where, exc)], {"scenario": label, "episode": ep, "step": st, "exc": repr(exc)[:300]},
-                            v["constant"], dict(stim, actions=list(stim["actions"][-40:]))))
+                            v["constant"], stim))
 
     try:
         env = PrimaiteGymEnv(env_config=copy.deepcopy(v["cfg"]) if isinstance(v["cfg"], dict) else v["cfg"])
@@ -1321,6 +1371,11 @@ def run_variant(prop: str, v: Dict[str, Any], seed: int, stats: Dict[str, Any]) 
         raised("construct", exc, 0, 0)
         return traces
     digests: List[Dict] = []
+    if prop == "C02":  # the spaces an RL library reads right after construction, before the first reset
+        try:
+            digests.append(episode_event(space_digest(env.observation_space), space_digest(env.action_space)))
+        except Exception as exc:  # noqa
+            raised("construct", exc, 0, 0)
 
     def record(obs, ep, st, walker):
         stats["observations"] = stats.get("observations", 0) + 1
@@ -1339,17 +1394,20 @@ def run_variant(prop: str, v: Dict[str, Any], seed: int, stats: Dict[str, Any]) 
                     flat_ok = False
             bad = count_bad_leaves(om.space, om.current_observation)
             traces.append(trace(prop, [step_event(nested, bool(agent.flatten_obs), flat_ok, bad)],
-                                {"scenario": label, "episode": ep, "step": st, "agent": env._agent_name}, v["constant"]))
+                                {"scenario": label, "episode": ep, "step": st, "agent": env._agent_name}, v["constant"], stim))
         for w in walker:
             for path, e in w.walk():
                 stats.setdefault("leaf_kinds", {})
                 stats["leaf_kinds"][e["kind"]] = stats["leaf_kinds"].get(e["kind"], 0) + 1
-                traces.append(trace(prop, [e], {"scenario": label, "episode": ep, "step": st, "path": path}, v["constant"]))
+                _distinct.setdefault(e["kind"], set()).add((tuple(e["cfg"].values()), tuple(e["truth"].values())))
+                traces.append(trace(prop, [e], {"scenario": label, "episode": ep, "step": st, "path": path}, v["constant"], stim))
 
     for ep in range(v["episodes"]):
         stim["actions"].append("reset")
+        rs = rng.randrange(10**6)
+        stim["reset_seeds"].append(rs)
         try:
-            obs, _ = env.reset(seed=rng.randrange(10**6))
+            obs, _ = env.reset(seed=rs)
         except Exception as exc:  # noqa
             raised("reset", exc, ep, 0)
             continue
@@ -1360,10 +1418,7 @@ def run_variant(prop: str, v: Dict[str, Any], seed: int, stats: Dict[str, Any]) 
                 walkers.append(ObsWalker(env.game, ref, ep_cfg))
         if prop == "C02":
             digests.append(episode_event(space_digest(env.observation_space), space_digest(env.action_space)))
-        try:
-            record(obs, ep, 0, walkers)
-        except Exception as exc:  # noqa
-            raise
+        record(obs, ep, 0, walkers)
         n = env.action_space.n
         for st in range(1, v["steps"] + 1):
             a = rng.choice(v["extras"]) if v["extras"] and rng.random() < v["p_extra"] else rng.randrange(n)
@@ -1396,7 +1451,8 @@ def run_variant(prop: str, v: Dict[str, Any], seed: int, stats: Dict[str, Any]) 
 def sig_fn(tr, event, stuck):
     fail = sorted((stuck or {}).get("fail") or [])
     prim = [c for c in fail if not c.startswith("Contains_")] or fail
-    sig = {"module": "ObsEncoding", "kind": event.get("kind") or event.get("where") or event.get("ev")}
+    sig = {"module": "ObsEncoding", "kind": event.get("kind") or event.get("where") or event.get("ev"),
+           "level": (tr.get("meta") or {}).get("level", "environment")}
     if prim:
         sig["clause"] = prim[0]
     if event.get("ev") == "Raised":
@@ -1442,10 +1498,41 @@ def component_level(prop: str, chk, tier: str) -> Dict[str, Any]:
         for label, e in evs:
             traces.append(trace(prop, [e], {"level": "component", "variant": label}))
         chk.add_case((kind, c, t), nontrivial=bool(t.get("exists") and t.get("nodeOn")))
-    res = tlc.validate("ObsEncodingTrace", traces, chunk=6000, parallel=12, heap="2g")
+    res = tlc.validate("ObsEncodingTrace", traces, chunk=5000, parallel=16, heap="2g")
     common.judge_traces(chk, "ObsEncoding", traces, res, sig_fn, label="component level")
+    binding_selftest(prop, traces, res)
     return {"generator_states": len(states), "generator_states_per_kind": per_kind, "real_observe_calls": calls,
             "tlc_validate_wall_s": round(res["wall_s"], 1)}
+
+
+def binding_selftest(prop: str, traces: List[Dict[str, Any]], res: Dict[str, Any]) -> None:
+    """The trace spec must reject an accepted record once one logged value is changed (machinery check)."""
+    from . import tlc
+
+    base = None
+    for tr, (r, n) in zip(traces, res["results"]):
+        e = tr["ev"][0]
+        if r == n + 1 and e["ev"] == "Leaf" and e["kind"] == "service" and e["truth"]["exists"] and e["truth"]["nodeOn"]:
+            base = tr
+            break
+    if base is None:
+        raise tlc.TLCError("binding self-test: no accepted service record to mutate")
+    e = base["ev"][0]
+    muts = []
+    if prop == "C09":
+        muts.append(dict(e, obs=dict(e["obs"], health_status=(e["obs"]["health_status"] + 1) % 5)))
+        muts.append(dict(e, truth=dict(e["truth"], op=e["truth"]["op"] % 6 + 1)))
+        muts.append(dict(e, cfg=dict(e["cfg"], scan=not e["cfg"]["scan"]),
+                         truth=dict(e["truth"], actual=1, visible=3), obs=dict(e["obs"], health_status=3 if e["cfg"]["scan"] else 1)))
+    else:
+        muts.append(dict(e, obs=dict(e["obs"], operating_status=e["size"]["operating_status"])))
+        muts.append(dict(e, size=dict(e["size"], health_status=4)))
+        muts.append(dict(e, contains=False))
+    mt = [trace(prop, [m], {"selftest": i}) for i, m in enumerate(muts)]
+    r2 = tlc.validate("ObsEncodingTrace", [base] + mt)
+    got = [r == n + 1 for (r, n) in r2["results"]]
+    if got != [True] + [False] * len(mt):
+        raise tlc.TLCError(f"binding self-test failed: accepted flags {got} (expected the original only)")
 
 
 def drift_report(traces: List[Dict[str, Any]]) -> List[str]:
@@ -1463,25 +1550,51 @@ def drift_report(traces: List[Dict[str, Any]]) -> List[str]:
 
 
 def environment_level(prop: str, chk, tier: str, seed: int) -> Dict[str, Any]:
+    """Variants are run one after the other; their traces are validated by TLC and judged in batches of at most
+    ~60 000 traces (bounded memory: a batch is dropped once judged)."""
+    import time as _t
+
     from . import common, tlc
 
     common.boot()
     stats: Dict[str, Any] = {}
-    per_variant = []
-    traces: List[Dict[str, Any]] = []
-    for i, v in enumerate(variants(tier)):
-        import time as _t
+    per_variant: List[Dict[str, Any]] = []
+    drift: List[str] = []
+    tlc_wall = [0.0]
+    batch: List[Dict[str, Any]] = []
+    owners: List[int] = []
 
+    def flush():
+        if not batch:
+            return
+        res = tlc.validate("ObsEncodingTrace", batch, chunk=5000, parallel=16, heap="2g")
+        common.judge_traces(chk, "ObsEncoding", batch, res, sig_fn, label="environment level")
+        for own, (r, n) in zip(owners, res["results"]):
+            if r != n + 1:
+                per_variant[own]["rejected"] += 1
+        tlc_wall[0] += res["wall_s"]
+        for d in drift_report(batch):
+            if d not in drift:
+                drift.append(d)
+        if len(chk.cov["samples"]) < 2:
+            tr = batch[len(batch) // 2]
+            chk.sample({"cfg": tr["cfg"], "meta": tr.get("meta"), "event": tr["ev"][0]})
+        del batch[:]
+        del owners[:]
+
+    for i, v in enumerate(variants(tier)):
         t0 = _t.time()
-        trs = run_variant(prop, v, seed * 1009 + i, stats)
-        per_variant.append({"scenario": v["label"], "traces": len(trs), "wall_s": round(_t.time() - t0, 1)})
-        traces += trs
+        traces = run_variant(prop, v, seed * 1009 + i, stats)
+        per_variant.append({"scenario": v["label"], "episodes": v["episodes"], "steps_per_episode": v["steps"],
+                            "traces": len(traces), "rejected": 0, "run_s": round(_t.time() - t0, 1)})
+        batch.extend(traces)
+        owners.extend([i] * len(traces))
         chk.add_case(v["label"])
-    res = tlc.validate("ObsEncodingTrace", traces, chunk=6000, parallel=12, heap="2g")
-    common.judge_traces(chk, "ObsEncoding", traces, res, sig_fn, label="environment level")
-    for tr in traces[:2]:
-        chk.sample({"cfg": tr["cfg"], "meta": tr.get("meta"), "event": tr["ev"][0]})
+        if len(batch) >= 60000:
+            flush()
+    flush()
     stats["variants"] = per_variant
-    stats["tlc_validate_wall_s"] = round(res["wall_s"], 1)
-    stats["space_size_drift"] = drift_report(traces)
+    stats["distinct_cfg_truth_per_kind"] = {k: len(v) for k, v in _distinct.items()}
+    stats["tlc_validate_wall_s"] = round(tlc_wall[0], 1)
+    stats["space_size_drift"] = drift
     return stats
